@@ -283,3 +283,40 @@ def carry_as_previous(L, ev, ctx):
             if ctx.eq(t_in, prev_first):
                 out[f'carry{L.id}:{name}'] = prev_now
     return out
+
+
+def package_lints(model, rep, rule, paths):
+    """generic who-may rules over the modules a property's code lives in (`paths`: substrings of module paths): state that the
+    evaluator does not model because Python keeps it outside the objects - mutable default arguments that are changed, closures
+    created in a comprehension / loop over its variable (late binding), memoised functions over object state, descriptors
+    storing on themselves.  One HOLDS instance when nothing is found."""
+    from sa.aliases import mutable_default_findings, late_binding_findings, descriptor_findings
+    n = 0
+    for qual, par, mod, ln, detail in mutable_default_findings(model):
+        if any(p_ in mod for p_ in paths):
+            n += 1
+            rep.violation(rule, f'{qual}:mutable-default[{par}]', detail, f'{mod}:{ln}')
+    for mod, ln, detail in late_binding_findings(model):
+        if any(p_ in mod for p_ in paths):
+            n += 1
+            rep.violation(rule, f'{mod.rsplit("/", 1)[-1]}:late-binding@{ln}', detail, f'{mod}:{ln}')
+    for cname, attr, dcls, mod, ln, detail in descriptor_findings(model):
+        if any(p_ in mod for p_ in paths):
+            n += 1
+            rep.violation(rule, f'{cname}.{attr}:descriptor', detail, f'{mod}:{ln}')
+    import ast as _ast
+    for cname, ci in model.classes.items():
+        for mem in ci.all_members():
+            if any(p_ in ci.module for p_ in paths) and any('cache' in _ast.unparse(d) for d in mem.node.decorator_list) and any(
+                    isinstance(a, _ast.Attribute) and isinstance(a.ctx, _ast.Load) and not isinstance(a.value, _ast.Call) for a in _ast.walk(mem.node)):
+                n += 1
+                rep.violation(rule, f'{mem.qualname}:memoised', 'memoised over object state: a later call gets the remembered value', mem.loc)
+    for fname, (mod, fn) in model.functions.items():
+        if any(p_ in mod for p_ in paths) and any('cache' in _ast.unparse(d) for d in fn.decorator_list) and any(
+                isinstance(a, _ast.Attribute) and isinstance(a.ctx, _ast.Load) and not isinstance(a.value, _ast.Call) for a in _ast.walk(fn)):
+            n += 1
+            rep.violation(rule, f'{fname}:memoised', 'memoised over object state: a later call gets the remembered value', f'{mod}:{fn.lineno}')
+    if n == 0:
+        rep.holds(rule, 'hidden-state lints', f'modules {list(paths)}: no changed mutable default, no late-binding closure, no memoisation over '
+                                                f'object state, no self-storing descriptor')
+    return n
